@@ -289,6 +289,20 @@ fn boundary_cases(tier: Tier) -> Vec<Case> {
             }
         }
     }
+    // hex escapes of every size class before, between and after slots; lexical errors of every kind
+    // inside a slot; indices, bounds and pattern targets that read or write the container being
+    // assigned to
+    for esc in ["\\x41", "\\x7f", "\\x80", "\\xe9", "\\xff", "\\xc3\\xa9", "\\n\\xe9\\r"] {
+        for tmpl in ["$\"@${x}\"", "$\"${x}@${x}\"", "$\"@@${x}@\"", "$\"é@${x + \"@\"}\"", "\"@\" + $\"@${x}\""] {
+            v.push(Case::new(format!("x := \"v\"\nprint(\"pre\")\ns := {}\nprint(s->len())\nprint(s)\n", tmpl.replace('@', esc)), 3, format!("escape {} in {}", esc, tmpl)));
+        }
+    }
+    for slot in ["99999999999999999999", "\"\\q\"", "\"$\"", "$\"$x\"", "\"\\xZZ\"", "\"\\x4\"", "1 ~ 2", "\"abc", "\\", "x +", "(x", "x)", ""] {
+        v.push(Case::new(format!("x := \"v\"\nprint(\"pre\")\nprint($\"a${{{}}}b\")\nprint(\"post\")\n", slot), 3, format!("slot that does not lex or parse: {:?}", slot)));
+    }
+    for prog in super::evalorder::SELF_TARGET_PROGRAMS {
+        v.push(Case::new(prog.to_string(), 3, "targets, indices or bounds that reach the container being assigned".to_string()));
+    }
     // text inside slots where a name or number touches a multi-byte character
     for slot in ["x€", "1é", "xé + 1", "x😀x", "é", "\"é\"x", "x.é", "x[€]"] {
         v.push(Case::new(format!("x := \"v\"\nprint(\"pre\")\nprint($\"a${{{}}}b\")\n", slot), 3, format!("slot text {:?}", slot)));
